@@ -2003,3 +2003,90 @@ func refillContext(info *types.Info, body *ast.BlockStmt, call *ast.CallExpr) st
 	}
 	return ""
 }
+
+// ---- C09.R14 a value that was skipped and captured is not read from the stream again ----
+
+// Several stream-mode decoders step over a whole value with s.skipValue and then work on the text they stepped over
+// (`src := s.buf[start:s.cursor]`). After that capture the cursor stands behind the value: any further reader on
+// the stream (nullBytes, trueBytes, another skipValue, a DecodeStream) consumes what FOLLOWS the value. In these
+// functions no call that moves the stream may come after the capture.
+func c09r14(rc *core.RC) {
+	p := rc.P
+	n := 0
+	consuming := func(name string) bool {
+		for _, s := range []string{"nullBytes", "trueBytes", "falseBytes", "stringBytes", "floatBytes", "skipValue", "skipObject", "skipArray", "skipWhiteSpace", "DecodeStream", "decodeStreamByte", "read", "Token"} {
+			if strings.HasSuffix(name, "."+s) || name == "decoder."+s {
+				return true
+			}
+		}
+		return false
+	}
+	for _, fd := range p.Funcs("decoder") {
+		if fd.Body == nil {
+			continue
+		}
+		info := p.Info(fd)
+		// the capture: a slice of s.buf whose high bound is s.cursor, after a skipValue call
+		var skip *ast.CallExpr
+		var capture ast.Node
+		ast.Inspect(fd.Body, func(m ast.Node) bool {
+			switch x := m.(type) {
+			case *ast.CallExpr:
+				if skip == nil && strings.HasSuffix(core.CalleeName(info, x), "Stream.skipValue") {
+					skip = x
+				}
+			case *ast.SliceExpr:
+				if skip != nil && capture == nil && x.Pos() > skip.Pos() && x.High != nil && isStreamCursor(info, x.High) {
+					if f := core.FieldOf(info, x.X); f != nil && f.Name() == "buf" {
+						capture = x
+					}
+				}
+			}
+			return true
+		})
+		if skip == nil || capture == nil {
+			continue
+		}
+		n++
+		fn := p.FuncName(fd)
+		rc.Touch(fn)
+		key := fn + "/no-stream-reader-after-captured-skip"
+		var bad []string
+		var at token.Pos
+		ast.Inspect(fd.Body, func(m ast.Node) bool {
+			c, ok := m.(*ast.CallExpr)
+			if !ok || c.Pos() < capture.End() {
+				return true
+			}
+			name := core.CalleeName(info, c)
+			if !consuming(name) {
+				return true
+			}
+			// on the stream: receiver or argument is a *Stream
+			onStream := false
+			if sel, isSel := c.Fun.(*ast.SelectorExpr); isSel && isStreamValue(info, sel.X) {
+				onStream = true
+			}
+			for _, a := range c.Args {
+				if isStreamValue(info, a) {
+					onStream = true
+				}
+			}
+			if onStream {
+				bad = append(bad, core.Src(p.Fset, c.Fun))
+				if !at.IsValid() {
+					at = c.Pos()
+				}
+			}
+			return true
+		})
+		if len(bad) == 0 {
+			rc.OK(key, capture.Pos(), "after the skipped value was captured (%s) nothing moves the stream: the function works on the captured text", core.Src(p.Fset, capture))
+		} else {
+			rc.Bad(key, at, "%s steps over the value with skipValue, captures its text, and then calls %s on the stream: that reader consumes what follows the value ({\"F\":null} into a func field fails through a Decoder because `}` is read as the second letter-by-letter null; {\"F\":nullnull} is accepted)", fn, strings.Join(bad, ", "))
+		}
+	}
+	if n < 3 {
+		rc.Unknown("decoder/captured-skips", token.NoPos, "found %d stream functions that capture a skipped value (confirmed: funcDecoder.DecodeStream, decodeStreamUnmarshaler, decodeStreamUnmarshalerContext, the text unmarshaler)", n)
+	}
+}
